@@ -57,7 +57,7 @@ def spectral_cell(job):
         res["history"] = list(hist)
     try:
         m = build_by_history(cls, dim, ls, hist)
-        g = RandMeth(m, mode_no=n, seed=seed, sampling=("inversion" if path == "ppf" else "mcmc"))
+        g = RandMeth(m, mode_no=n, seed=seed, sampling={"ppf": "inversion", "cdf": "inversion", "pdfinv": "inversion", "auto": "auto"}.get(path, "mcmc"))
         k = np.asarray(g._cov_sample, dtype=float)
         if k.shape != (dim, n):
             res.update(error="cov_sample shape %s" % (k.shape,))
@@ -78,6 +78,22 @@ def spectral_cell(job):
                    median_k=float(np.median(kn)), max_k=float(kn.max()), nonfinite=int((~np.isfinite(k)).sum()),
                    z_mean=float(np.mean(np.concatenate([g._z_1, g._z_2]))),
                    z_var=float(np.var(np.concatenate([g._z_1, g._z_2]))))
+        iid = path in ("ppf", "cdf", "pdfinv") or (path == "auto" and m.has_ppf)
+        if cls in ANALYTIC and (iid or n >= 20000):
+            # (short MCMC chains under-sample heavy spectral tails — TPLExponential at 1000 modes is off by 0.06-0.13 — so the Kolmogorov
+            #  bound for nearly independent draws is applied to the inversion paths and to the long chains only)
+            # distribution of the drawn radii against the integral of the model's radial spectral pdf (independent of cdf / ppf)
+            rg = np.geomspace(1e-5, 1e5, 4001) / float(m.len_rescaled)
+            pdf = np.asarray(m.spectral_rad_pdf(rg), dtype=float)
+            F = np.concatenate([[0.0], np.cumsum(0.5 * (pdf[1:] + pdf[:-1]) * np.diff(rg))]) + 0.5 * pdf[0] * rg[0]
+            if abs(F[-1] - 1.0) < 0.01:
+                Fe = np.searchsorted(np.sort(kn), rg, side="right") / float(n)
+                D = np.abs(Fe - F)
+                i = int(np.argmax(D))
+                # Kolmogorov: P(D > l / sqrt(N)) ~ 2 exp(-2 l^2) = 2.6e-9 at l = 3.2; + quadrature 0.01
+                # MCMC: the n modes are drawn from a chain of 10 n correlated states; integrated autocorrelation times up to ~100 steps for
+                # heavy-tailed densities (TPLExponential: D = 0.03 at 20000 modes on the unchanged tree) -> effective sample size >= n / 10
+                res.update(ks=float(D[i]), ks_thr=float(3.2 * math.sqrt((2.0 if iid else 10.0) / n) + 0.01), ks_at=float(rg[i]), ks_emp=float(Fe[i]), ks_ref=float(F[i]))
     except Exception as e:  # an exception of the implementation is a finding with its input
         res.update(error="%s: %s" % (type(e).__name__, str(e)[:200]))
     res["t"] = round(time.time() - t0, 2)
@@ -155,7 +171,13 @@ def judge_cell(ctx, r, stage):
     if abs(r["z_mean"]) > 8.0 / math.sqrt(n2) or abs(r["z_var"] - 1.0) > 8.0 * math.sqrt(2.0 / n2):
         ctx.violation(stage, "amplitudes z_1, z_2 are not standard normal (mean %.4f, var %.4f)" % (r["z_mean"], r["z_var"]),
                       r, key="amplitudes:%s:dim=%d" % (r["cls"], r["dim"]))
-    if bad:
+    if r.get("ks", 0.0) > r.get("ks_thr", 1.0):
+        bad = True
+        ctx.violation(stage, "%s dim=%d sampling=%s mode_no=%d seed=%d (model built by %s): the drawn wave numbers do not follow the model's radial spectral "
+                      "distribution: empirical cdf of |k| at %.4g is %.4f, integral of spectral_rad_pdf %.4f (KS distance %.4f > %.4f)" % (
+                          r["cls"], r["dim"], r["path"], r["N"], r["seed"], hist_tag(r.get("history")), r["ks_at"], r["ks_emp"], r["ks_ref"], r["ks"], r["ks_thr"]),
+                      r, key=key + ":ks")
+    if bad and r["ratio"] > 1.0 or r["nonfinite"] > 0:
         w = r["worst"]
         ctx.violation(stage, "%s dim=%d sampling=%s mode_no=%d seed=%d (model built by %s): mean cos<k,h> = %.4f but rho(h) = %.4f "
                       "(%.0f standard errors; median |k| = %.3g, max |k| = %.3g)" % (
@@ -222,9 +244,18 @@ def corr_randmeth(ctx, drv, rng, n_cases, broken):
             pos = gs.tools.geometric.generate_grid(axes)
             arg, mt = axes, "structured"
         else:
-            npt = int(rng.choice([1, 2, 5, 17]))
+            npt = int(rng.choice([1, 2, dim, dim + 1, 5, 17]))
             pos = rng.uniform(-20, 20, size=(dim, npt))
-            arg, mt = [pos[d] for d in range(dim)], "unstructured"
+            lay = it % 4          # the same positions as list of rows / Fortran-ordered 2-D array / transposed view / strided view
+            if lay == 1:
+                arg = np.asfortranarray(pos)
+            elif lay == 2:
+                arg = np.ascontiguousarray(pos.T).T
+            elif lay == 3:
+                big = np.zeros((dim, 2 * npt)); big[:, ::2] = pos; arg = big[:, ::2]
+            else:
+                arg = [pos[d] for d in range(dim)]
+            mt = "unstructured"
         gen = srf.generator
         st = _master_state(gen)
         field = np.asarray(srf(arg, mesh_type=mt), dtype=float).reshape(-1)
@@ -1331,6 +1362,151 @@ def scale_probe(ctx, rng, thorough):
     return n, n_f
 
 
+
+# ----------------------------------------------------------------------------------------- sampling options
+def sampling_cells(rng, armed_set, thorough):
+    """sampling in {'auto', 'inversion', 'mcmc'} x class x dim where available, beyond the plain ppf / mcmc cells:
+    'cdf' = sampling='inversion' for models with an analytic cdf but no ppf (Gaussian / Exponential in 3-D: scipy inverts the cdf),
+    'auto' wherever the path it selects is armed, 'pdfinv' = sampling='inversion' with the pdf only (scipy integrates and inverts; slow:
+    thorough only, 300 modes)"""
+    import gstools as gs
+    cells = []
+    for cls in CLASSES:
+        for dim in (1, 2, 3):
+            m = getattr(gs, cls)(dim=dim)
+            if not m.check_dim(dim):
+                continue
+            if m.has_cdf and not m.has_ppf:
+                cells.append((cls, dim, "cdf", 1000))
+                if thorough:
+                    cells.append((cls, dim, "cdf", 20000))
+            sel = "ppf" if m.has_ppf else "mcmc"
+            if (cls, dim, sel, 1000) in armed_set:
+                cells.append((cls, dim, "auto", 1000))
+    if thorough:
+        cls = ANALYTIC[int(rng.integers(2, len(ANALYTIC)))]
+        cells.append((cls, int(rng.integers(1, 4)), "pdfinv", 300))
+    else:
+        auto = [c for c in cells if c[2] == "auto"]
+        cells = [c for c in cells if c[2] != "auto"] + [auto[i] for i in rng.permutation(len(auto))[:8]]
+    return cells
+
+
+def radial_dist_probe(ctx, rng):
+    """deterministic: for every class / dim that defines them, spectral_rad_cdf is the integral of spectral_rad_pdf (scipy quad, 1e-7),
+    starts at 0, is monotone and tends to 1; ppf(cdf(r)) = r and cdf(ppf(u)) = u (1e-9); for the analytic-spectrum classes the pdf
+    integrates to 1 (1e-4).  (C04 proves the pairs for its translated formulas; here the implementation is evaluated.)"""
+    import gstools as gs
+    from scipy import integrate
+    n = 0
+    for cls in CLASSES:
+        for dim in (1, 2, 3):
+            cl = getattr(gs, cls)
+            if not cl(dim=dim).check_dim(dim):
+                continue
+            for opts in ({}, dict(rescale=2.3, len_scale=0.7)):
+                m = cl(dim=dim, **opts)
+                ell = float(m.len_rescaled)
+                case = dict(cls=cls, dim=dim, opts=opts)
+                if m.has_cdf:
+                    rs = np.array([0.0, 0.05, 0.3, 1.0, 2.5, 6.0, 20.0]) / ell
+                    cdf = np.asarray(m.spectral_rad_cdf(rs), dtype=float)
+                    ints = np.array([integrate.quad(lambda x: float(m.spectral_rad_pdf(np.array([x]))[0]), 0.0, r, epsabs=1e-11, epsrel=1e-11, limit=200)[0] for r in rs])
+                    n += 1
+                    ctx.count(("radial-cdf", cls, dim, bool(opts)), hist=dict(radial_class=cls, radial_dim=dim))
+                    bad = None
+                    if np.any(np.abs(cdf - ints) > 1e-7):
+                        i = int(np.argmax(np.abs(cdf - ints)))
+                        bad = "spectral_rad_cdf(%.4g) = %.8f but the integral of spectral_rad_pdf over [0, r] is %.8f" % (rs[i], cdf[i], ints[i])
+                    elif cdf[0] != 0.0 or np.any(np.diff(cdf) <= 0) or not 0.999 < float(m.spectral_rad_cdf(1e6 / ell)) <= 1.0:
+                        bad = "spectral_rad_cdf is not a distribution function on [0, inf): values %s" % cdf.tolist()
+                    if bad:
+                        ctx.violation("probe: radial spectral distribution", "%s(dim=%d, %s): %s — sampling='inversion' draws the wave numbers from this cdf" % (cls, dim, opts, bad),
+                                      dict(case, r=rs.tolist(), cdf=cdf.tolist(), integral_of_pdf=ints.tolist()), key="radial-cdf:%s:dim=%d" % (cls, dim))
+                    if m.has_ppf:
+                        us = np.array([1e-6, 0.01, 0.3, 0.5, 0.9, 0.999])
+                        back = np.asarray(m.spectral_rad_cdf(m.spectral_rad_ppf(us)), dtype=float)
+                        rr = rs[1:][cdf[1:] <= 0.999]          # beyond, the cdf saturates in double precision and ppf(cdf(r)) is +inf
+                        back_r = np.asarray(m.spectral_rad_ppf(m.spectral_rad_cdf(rr)), dtype=float)
+                        # ppf(cdf(r)) is ill-conditioned where the cdf saturates: compare with the condition number 1 / (pdf * r)
+                        cond = 1.0 / np.maximum(np.asarray(m.spectral_rad_pdf(rr), dtype=float) * rr, 1e-300)
+                        if np.any(np.abs(back - us) > 1e-9) or np.any(np.abs(back_r - rr) > (1e-9 + 1e-14 * cond) * rr):
+                            ctx.violation("probe: radial spectral distribution", "%s(dim=%d, %s): spectral_rad_ppf and spectral_rad_cdf are not inverse: cdf(ppf(u)) = %s for u = %s; "
+                                          "ppf(cdf(r)) = %s for r = %s" % (cls, dim, opts, back.tolist(), us.tolist(), back_r.tolist(), rr.tolist()),
+                                          dict(case, u=us.tolist(), cdf_ppf=back.tolist(), r=rr.tolist(), ppf_cdf=back_r.tolist()), key="radial-ppf:%s:dim=%d" % (cls, dim))
+                if cls in ANALYTIC and not opts:
+                    tot = sum(integrate.quad(lambda x: float(m.spectral_rad_pdf(np.array([x]))[0]), a / ell, b / ell, epsabs=1e-10, epsrel=1e-10, limit=400)[0]
+                              for a, b in ((0, 1e-3), (1e-3, 1.0), (1.0, 30.0), (30.0, 1e3), (1e3, 1e6), (1e6, 1e9), (1e9, 1e12)))
+                    n += 1
+                    ctx.count(("radial-norm", cls, dim), hist=dict(radial_class=cls, radial_dim=dim))
+                    # heavy tails: the mass beyond 1e12 / len_scale is < 1e-5 for every analytic class at its default options (TPLExponential: 1.4e-6)
+                    if abs(tot - 1.0) > 2e-4:
+                        ctx.violation("probe: radial spectral distribution", "%s(dim=%d): spectral_rad_pdf integrates to %.6f instead of 1" % (cls, dim, tot),
+                                      dict(case, integral=tot), key="radial-norm:%s:dim=%d" % (cls, dim))
+    return n
+
+
+def value_scale_probe(ctx, rng, thorough):
+    """exact VALUE-scale equivariance (C01_randmeth_value_scale): model(var c, nugget c) with c = 4^m gives 2^m x the field of
+    model(var, nugget) for the same seed — bit for bit, since sqrt and the products with powers of two are exact — for the three
+    generators through SRF (mean scaled too) and for CondSRF (conditioning values scaled; 1e-9: LAPACK inverse)."""
+    import gstools as gs
+    n = 0
+    exps = (-30, -21, -14, 7, 20, 30) if thorough else (-30, -14, int(rng.choice([-21, 7, 20])), 30)
+    for gname in GEN_NAMES + ("CondSRF",):
+        for rep in range(2):
+            dim = 2 if gname == "VectorField" else int(rng.integers(1, 4))
+            kind = ["Gaussian", "Exponential", "Matern"][int(rng.integers(3 if gname == "RandMeth" else 2))]
+            var, nug = float(rng.uniform(0.5, 2.0)), float([rng.uniform(0.1, 1.0), 0.0][rep])
+            kw = dict(dim=dim, len_scale=float(rng.uniform(0.8, 3.0)))
+            if dim > 1:
+                kw.update(anis=[float(x) for x in rng.uniform(0.4, 1.2, size=dim - 1)], angles=[float(x) for x in rng.uniform(-1, 1, size=dim * (dim - 1) // 2)])
+            seed = int(rng.integers(1, 2 ** 31 - 1))
+            npt = int(rng.choice([1, dim, dim + 1, 6]))
+            pos = [rng.uniform(-6, 6, size=npt) for _ in range(dim)]
+            mean0 = 0.0 if gname == "VectorField" else float(rng.normal())
+            cpos = [rng.uniform(-6, 6, size=4) for _ in range(dim)]
+            cval = rng.normal(size=4)
+
+            def field(m2):
+                f = 2.0 ** m2
+                m = getattr(gs, kind)(var=var * f * f, nugget=nug * f * f, **kw)
+                if gname == "CondSRF":
+                    # simple kriging: the kriging matrix is the covariance matrix alone and scales as a whole (the ordinary-kriging
+                    # system mixes covariances with the unit unbiasedness row and is not scale invariant in floating point: C05/C07)
+                    kr = gs.krige.Simple(m, cpos, cval * f, mean=mean0 * f)
+                    return np.asarray(gs.CondSRF(kr, mode_no=16, seed=seed)(pos), dtype=float)
+                gk = dict(mode_no=16)
+                if gname == "Fourier":
+                    gk = dict(period=[20.0] * dim, mode_no=[4] * dim)
+                elif gname == "VectorField":
+                    gk = dict(mode_no=16, mean_velocity=0.7)
+                return np.asarray(gs.SRF(m, mean=mean0 * f, generator=gname, seed=seed, **gk)(pos), dtype=float)
+            ref = field(0)
+            if gname == "VectorField":
+                ref = ref[1:]           # component 0 carries the unscaled mean velocity 0.7 (absorbs a tiny fluctuation): compare the others
+            for m2 in exps:
+                out = field(m2)
+                if gname == "VectorField":
+                    out = out[1:]
+                n += 1
+                ctx.count(("value-scale", gname, kind, dim, m2, nug > 0), hist=dict(value_scale_generator=gname, value_scale_exponent=2 * m2))
+                expect = ref * 2.0 ** m2
+                tol = (1e-9 if gname == "CondSRF" else 0.0) * float(np.max(np.abs(expect)) + 1e-300)
+                if out.shape != expect.shape or not np.all(np.abs(out - expect) <= tol):
+                    i = int(np.argmax(np.abs(out - expect)))
+                    ctx.violation("probe: value-scale equivariance",
+                                  "%s / %s(dim=%d, var=%.4g * 4^%d, nugget=%.4g * 4^%d), seed %d: the field is not 2^%d x the field of (var=%.4g, nugget=%.4g) with the "
+                                  "same seed: %.17g vs %.17g (ratio %.6g) — the pointwise variance is not (var + nugget) x 4^%d" % (
+                                      gname, kind, dim, var, m2, nug, m2, seed, m2, var, nug, out.ravel()[i], expect.ravel()[i],
+                                      out.ravel()[i] / expect.ravel()[i] if expect.ravel()[i] else float("nan"), m2),
+                                  dict(generator=gname, cls=kind, model_kwargs=kw, var=var, nugget=nug, exponent_of_4=m2, seed=seed, pos=[p.tolist() for p in pos],
+                                       mean=mean0, cond_pos=[p.tolist() for p in cpos], cond_val=cval.tolist(), field=out.ravel().tolist(), expected=expect.ravel().tolist()),
+                                  key="value-scale:%s:nugget%s" % (gname, ">0" if nug > 0 else "=0"))
+                    break
+    return n
+
+
 # ----------------------------------------------------------------------------------------- run
 def load_local_known(ctx):
     """known_findings.json is assembled from known_findings.d/*.json by the coordinator; until then (and in any case)
@@ -1448,6 +1624,11 @@ def run(ctx):
         n_s, n_f = scale_probe(ctx, rng, thorough)
         C.log("[C01] scale equivariance: %d spectral (class, dim, option, L) comparisons, %d field comparisons in %.1fs" % (n_s, n_f, time.time() - t0))
         t0 = time.time()
+        n_v = value_scale_probe(ctx, rng, thorough)
+        n_r = radial_dist_probe(ctx, rng)
+        C.log("[C01] value-scale equivariance: %d field comparisons; radial distribution (cdf = integral of pdf, ppf/cdf inverse, normalisation): %d checks in %.1fs" % (
+            n_v, n_r, time.time() - t0))
+        t0 = time.time()
         n_h, n_c = srf_history_probe(ctx, rng, thorough)
         C.log("[C01] SRF operation histories: %d histories, %d comparisons with fresh objects in %.1fs" % (n_h, n_c, time.time() - t0))
         t0 = time.time()
@@ -1468,11 +1649,13 @@ def run(ctx):
         jobs += [c[:4] + (int(rng.integers(1, 2 ** 31 - 1)), LEN_SCALE, c[4]) for c in hcells for _ in range(3)]
         ocells = option_cells(rng, set(armed), thorough)
         jobs += [c[:4] + (int(rng.integers(1, 2 ** 31 - 1)), LEN_SCALE, c[4]) for c in ocells]
+        scells = sampling_cells(rng, set(armed), thorough)
+        jobs += [c + (int(rng.integers(1, 2 ** 31 - 1)), LEN_SCALE) for c in scells for _ in range(3 if c[3] == 1000 else 1)]
         C.log("[C01] cell selection %.1fs" % (time.time() - t0))
         t0 = time.time()
         res = pool.map(spectral_cell, jobs, chunksize=1)
-        C.log("[C01] spectral cells: %d armed (of %d; %d are open known findings), %d cells + %d setter-history cells + %d option-pair cells / %d generators evaluated in %.1fs" % (
-            len(armed), len(all_cells()), len(known_keys), len(pick), len(hcells), len(ocells), len(jobs), time.time() - t0))
+        C.log("[C01] spectral cells: %d armed (of %d; %d are open known findings), %d cells + %d setter-history cells + %d option-pair cells + %d sampling-option cells / %d generators evaluated in %.1fs" % (
+            len(armed), len(all_cells()), len(known_keys), len(pick), len(hcells), len(ocells), len(scells), len(jobs), time.time() - t0))
         worst = 0.0
         groups = {}
         for r in res:
@@ -1487,6 +1670,9 @@ def run(ctx):
             rs.sort(key=lambda r: r["ratio"])
             med = rs[len(rs) // 2]
             med = dict(med, replicate_ratios=[round(r["ratio"], 3) for r in rs], replicate_seeds=[r["seed"] for r in rs])
+            if all("ks" in r for r in rs):
+                ksr = sorted(rs, key=lambda r: r["ks"])[len(rs) // 2]
+                med.update({k: ksr[k] for k in ("ks", "ks_thr", "ks_at", "ks_emp", "ks_ref")})
             judge_cell(ctx, med, "probe: spectral sampling")
             worst = max(worst, med["ratio"])
             if len(ctx.samples) < 5:
